@@ -84,3 +84,7 @@ impl<K: OneRttKey> Key<K> {
         &mut self.key
     }
 }
+
+#[cfg(all(aws_s2n_quic_verif, test))]
+#[path = "/verif/harness/core/limited.rs"]
+mod verif;
